@@ -932,6 +932,7 @@ def check_group_by(ctx):
     ps = [p for p in A.func_params(fill) if p != "self"]
     val = ps[0]
     n = 0
+    setdefault_form = []
     for p in P.paths_of(fill):
         if p.end == "raise":
             r = [s for s in p.stmts() if isinstance(s, ast.Raise)][-1]
@@ -955,7 +956,27 @@ def check_group_by(ctx):
                 present = pol if isinstance(t.ops[0], ast.In) else (not pol)
         ok = len(apps) + len(news) == 1
         why = "%d append(s) and %d group creation(s)" % (len(apps), len(news))
-        if ok and apps:
+        # the same as one statement: self.groups.setdefault(key, []).append(val) (the result possibly bound to a local first)
+        sd = [c for _, c in p.calls() if isinstance(c.func, ast.Attribute) and c.func.attr == "setdefault" and A.src(c.func.value) == "self.groups"
+              and len(c.args) == 2 and isinstance(c.args[1], ast.List) and not c.args[1].elts]
+        if not apps and not news and len(sd) == 1:
+            holders = {A.src(sd[0])}
+            for st in p.stmts():
+                if isinstance(st, ast.Assign) and st.value is sd[0] and len(st.targets) == 1 and isinstance(st.targets[0], ast.Name):
+                    holders.add(st.targets[0].id)
+            adds = [c for _, c in p.calls() if isinstance(c.func, ast.Attribute) and c.func.attr in ("append", "insert", "extend", "appendleft")
+                    and A.src(c.func.value) in holders]
+            keyvar = A.src(sd[0].args[0])
+            setdefault_form.append(p)
+            okf = len(adds) == 1 and adds[0].func.attr == "append" and len(adds[0].args) == 1 and A.src(adds[0].args[0]) == val
+            ctx.check("C15-d", okf, fill, "GroupBy.fill [%s]: the value itself must be appended once to self.groups.setdefault(key, []) (%s)" % (
+                p.describe(3), "; ".join(A.short(c, 40) for c in adds) or "nothing appended"),
+                detail="GroupBy.fill [%s]: value joins exactly one group (setdefault form)" % p.describe(3),
+                construct="fill-path:" + p.describe(3), path=p)
+            ok = None
+        if ok is None:
+            pass
+        elif ok and apps:
             a = apps[0]
             ok = a.func.attr == "append" and len(a.args) == 1 and A.src(a.args[0]) == val and present is True \
                 and A.src(a.func.value.slice) == keyvar
@@ -967,8 +988,9 @@ def check_group_by(ctx):
                 and A.src(tgt.slice) == keyvar
             why = "`%s` under key-present=%s: a group may only be created, holding the value itself, when its key is new " \
                   "(otherwise the values filled before are lost)" % (A.short(s, 60), present)
-        ctx.check("C15-d", ok, fill, "GroupBy.fill [%s]: %s" % (p.describe(3), why),
-                  detail="GroupBy.fill [%s]: value joins exactly one group" % p.describe(3), construct="fill-path:" + p.describe(3), path=p)
+        if ok is not None:
+            ctx.check("C15-d", ok, fill, "GroupBy.fill [%s]: %s" % (p.describe(3), why),
+                      detail="GroupBy.fill [%s]: value joins exactly one group" % p.describe(3), construct="fill-path:" + p.describe(3), path=p)
         # key derivation
         if keyvar:
             chain_ok = False
@@ -983,7 +1005,7 @@ def check_group_by(ctx):
                         and len(b.args) == 1 and A.src(b.args[0]) == val
             ctx.check("C15-d", chain_ok, fill, "GroupBy.fill does not compute the group key as to_string(self._iet.get(get_context(value)))",
                       detail="group key = to_string(selected sub-context)", construct="fill-key", path=p)
-    ctx.instances_floor("C15-d/fill", n, 2, "normal paths of GroupBy.fill")
+    ctx.instances_floor("C15-d/fill", n, 1 if setdefault_form else 2, "normal paths of GroupBy.fill")
     # constructor wiring
     init = ctx.tree.func(GB, "GroupBy.__init__")
     ips = [p for p in A.func_params(init) if p != "self"]
@@ -1411,7 +1433,11 @@ def check_subclass_typestate(ctx):
         for name, fn in bms.items():
             if name in ms or name == "__init__":
                 continue
+            # what an inherited method assigns itself (on entry, unconditionally) it does not need from the constructor
+            own = {tg.attr for st in fn.body if isinstance(st, ast.Assign) for tg in st.targets if A.is_self_attr(tg)}
             for x in A.walk_local(fn):
+                if isinstance(x, ast.Attribute) and A.is_self_attr(x) and x.attr in own:
+                    continue
                 if isinstance(x, ast.Attribute) and isinstance(x.ctx, ast.Load) and A.is_self_attr(x) and x.attr not in bound \
                         and x.attr not in bms and x.attr not in ms:
                     missing.setdefault(name, set()).add(x.attr)
